@@ -12,7 +12,10 @@ package main
 import (
 	"encoding/json"
 	"fmt"
+	"os"
 	"sort"
+	"sync"
+	"sync/atomic"
 	"time"
 
 	"github.com/fxamacker/cbor/v2"
@@ -90,7 +93,9 @@ func peerOf(x string) string {
 	}
 	return "A"
 }
-func key(m mmsg) string { return fmt.Sprintf("%s/%s/%d/%d/%d/%d", m.To, m.Kind, m.ID, m.Share, m.Stamp, m.N) }
+func key(m mmsg) string {
+	return fmt.Sprintf("%s/%s/%d/%d/%d/%d", m.To, m.Kind, m.ID, m.Share, m.Stamp, m.N)
+}
 
 // kindOf classifies a real frame in flight.
 func kindOf(data []byte) string {
@@ -467,6 +472,63 @@ func run(c *vf.Ctx) {
 	for _, cls := range classes {
 		replay(classPath[cls], cls)
 		c.Distinct(cls)
+	}
+
+	// ---- the model's Start is ONE step, enabled only while the router has no exchange open with that peer. The
+	// real Send is called from several tun workers at once (two packets for a router without keys): two calls at the
+	// same moment must still start one exchange. Judged by the property: after the network drained, two routers that
+	// both report keys decrypt each other.
+	{
+		twoStarted, rounds := 0, c.Pick(1500, 15000)
+		for k := 0; k < rounds; k++ {
+			pr := newPair()
+			a, b := pr.ms.Node(1), pr.ms.Node(2)
+			var wg sync.WaitGroup
+			gate := make(chan struct{})
+			var started atomic.Int32
+			for g := 0; g < 4; g++ {
+				wg.Add(1)
+				go func() {
+					defer wg.Done()
+					<-gate
+					if _, err := a.Rt.HelloPing.Send(b.ID.IP); err == nil {
+						started.Add(1)
+					}
+				}()
+			}
+			close(gate)
+			wg.Wait()
+			c.Eval(4)
+			if started.Load() > 1 {
+				twoStarted++
+			}
+			order := "in order"
+			if k%2 == 1 {
+				// the network may reorder: what left A second arrives first
+				order = "second request first"
+				fl := pr.ms.W.Inflight
+				for i, j := 0, len(fl)-1; i < j; i, j = i+1, j-1 {
+					fl[i], fl[j] = fl[j], fl[i]
+				}
+			}
+			for k := 0; k < 200 && pr.ms.W.NInflight() > 0; k++ {
+				fl := pr.ms.W.Take(0)
+				_, _ = pr.ms.W.Deliver(fl)
+			}
+			o := pr.observe()
+			if os.Getenv("VERIF_C14_DEBUG") != "" {
+				c.Logf("concurrent-start round %d: started=%d %s -> %+v", k, started.Load(), order, o)
+			}
+			events = append(events, map[string]any{"ev": "step", "what": fmt.Sprintf("two simultaneous Send calls at A (%d started an exchange); network drained, %s", started.Load(), order)})
+			if o.ASet && o.BSet && !(o.A2B && o.B2A) {
+				c.Violation("mismatch/concurrent-start/code", fmt.Sprintf("two packets for a router without keys handled at the same moment: %d hello exchanges were started by one router; after the network drained both routers report encryption established but cannot decrypt each other (A->B %v, B->A %v)", started.Load(), o.A2B, o.B2A),
+					map[string]any{"started": started.Load(), "observed": o}, nil)
+				break
+			}
+			events = append(events, map[string]any{"ev": "quiet", "aset": o.ASet, "bset": o.BSet, "a2b": o.A2B, "b2a": o.B2A, "class": "concurrent-start"})
+		}
+		c.Distinct("concurrent-start")
+		c.Stage("R-concurrent-start", map[string]any{"rounds": rounds, "rounds_with_two_exchanges": twoStarted})
 	}
 	paths := g.CoverPaths(0)
 	total := len(paths)
